@@ -188,7 +188,7 @@ class Violation(Exception):
 # ---------------------------------------------------------------------------------------------------
 OPS_PLAIN = [(8, "new"), (3, "newval"), (5, "alias"), (10, "get"), (8, "slice"), (8, "mask"), (8, "set_s"), (6, "set_a"),
              (5, "setm_s"), (5, "setm_a"), (4, "ifelse_s"), (3, "ifelse_a"), (8, "iop"), (5, "ro"), (5, "comp"),
-             (4, "elem_w"), (4, "mv"), (3, "mv_w"), (3, "frombuf")]
+             (4, "elem_w"), (4, "mv"), (3, "mv_w"), (3, "tobytes"), (3, "frombuf")]
 OPS_FAULTS = OPS_PLAIN + [(9, "release"), (3, "gcp"), (6, "bad_get"), (5, "bad_set"), (6, "badbuf"), (3, "wbuf"), (6, "ro_attack")]
 
 TYPE_FAMILIES = {
@@ -233,6 +233,7 @@ def gen_op_fields(r, o, op, mode, maxn, types):
             op["form"] = r.weighted([(4, "full"), (4, "packed"), (2, "bad")]) if mode == "faults" else r.weighted([(4, "full"), (4, "packed")])
         if o == "ifelse_a":
             op["dlen2"] = r.weighted([(9, 0), (1, 1)]) if mode == "faults" else 0
+            op["okind"] = r.weighted([(4, "new"), (4, "masked"), (3, "slot")])
     elif o in ("set_s", "set_a", "bad_set"):
         op["idx"] = r.range(-maxn - 1, maxn) if r.chance(0.5) else gen_slice(r, maxn)
         if o == "bad_set":
@@ -252,6 +253,8 @@ def gen_op_fields(r, o, op, mode, maxn, types):
         op["what"] = r.weighted([(6, "owner"), (4, "any")])
     elif o == "gcp":
         op["n"] = r.range(1, 6)
+    elif o == "tobytes":
+        op["c"] = r.below(4)
     elif o == "mv_w":
         op["i"] = r.below(maxn + 1)
         op["c"] = r.below(4)
@@ -755,7 +758,29 @@ class Sim(FAM.FamilyMixin):
         bits = self.mask_bits(op, n, h)
         ln = n + op.get("dlen2", 0)
         ovals = [fresh_value(h.tname, op["v"] * 16 + 7 + i) for i in range(ln)]
-        got = self.call(h.real.ifelse, self.make_mask(bits), self.make_array(h.tname, ovals))
+        other = None
+        if op.get("okind") == "masked" and ln > 0:
+            # `other` is itself a masked reference selecting exactly ln elements of a longer array (not a prefix)
+            total = ln + 1 + (op["v"] % 3)
+            drop = set(((op["v"] * 5 + j * 3) % total) for j in range(total - ln))
+            j = 0
+            while len(drop) < total - ln:
+                drop.add(j)
+                j += 1
+            picked = [p for p in range(total) if p not in drop][:ln]
+            uvals = [fresh_value(h.tname, op["v"] * 16 + 9 + i) for i in range(total)]
+            under = self.make_array(h.tname, uvals)
+            other = under[self.make_mask([1 if p in picked else 0 for p in range(total)])]
+            ovals = [uvals[p] for p in picked]
+            self.inc("probe.ifelse_other_is_masked_reference")
+        elif op.get("okind") == "slot":
+            o = self.pick(op["h"] // 3, lambda x: x.kind == "arr" and x.tname == h.tname and len(x.idx) == ln and x is not h)
+            if o:
+                other, ovals = o.real, o.values()
+                self.inc("probe.ifelse_other_is_live_handle")
+        if other is None:
+            other = self.make_array(h.tname, ovals)
+        got = self.call(h.real.ifelse, self.make_mask(bits), other)
         bad = len(bits) != n or ln != n
         if bad:
             self.inc("fault.bad_length")
@@ -920,6 +945,42 @@ class Sim(FAM.FamilyMixin):
             self.inc("probe.buffer_export_of_component_view")
         nh = Handle(got[1], "mv", h.tname, h.store, h.idx, h.writable, False, h.comp)
         self.add(nh)
+
+    def op_tobytes(self, op):
+        """other consumers of the exported buffer: bytes(a), bytearray(a), ctypes from_buffer_copy, memoryview.cast('B')"""
+        h = self.pick(op["h"], lambda x: x.kind == "arr" and x.tname in BUF_FMT)
+        if not h:
+            return False
+        how = ["bytes", "bytearray", "copy", "cast"][op["c"] % 4]
+        self.ctx("buffer-consumer-" + how, h)
+        fmt, ndim, width, isz = BUF_FMT[h.tname]
+        n = len(h.idx)
+        flat = []
+        for k in range(n):
+            flat.extend(h.get(k))
+        want = struct.pack("@%d%s" % (len(flat), fmt), *flat) if flat else b""
+        if how == "bytes":
+            got = self.call(bytes, h.real)
+        elif how == "bytearray":
+            got = self.call(bytearray, h.real)
+        elif how == "copy":
+            got = self.call((ctypes.c_ubyte * len(want)).from_buffer_copy, h.real)
+        else:
+            got = self.call(lambda a: memoryview(a).cast("B").tobytes(), h.real)
+        if how == "cast" and not h.masked:
+            # memoryview.cast has rules of its own (no zeros in the shape, C-contiguous only): a refusal by the
+            # interpreter is not the array's doing - only wrong bytes are
+            if got[0] == "ok" and bytes(got[1]) != want:
+                raise Violation("buffer-contents", "memoryview(a).cast('B') gives other bytes than the elements")
+            return
+        if how == "copy" and h.comp is not None and not h.masked:
+            # from_buffer_copy needs a contiguous buffer: a refusal is fine, wrong bytes are not
+            if got[0] == "ok" and bytes(got[1]) != want:
+                raise Violation("buffer-contents", "from_buffer_copy of a strided view gives other bytes than the elements")
+            return
+        self.expect(got, h.masked, "%s(a) (masked %s)" % (how, h.masked))
+        if not h.masked and bytes(got[1]) != want:
+            raise Violation("buffer-contents", "%s(a) gives other bytes than the array's elements" % how)
 
     def op_mv_w(self, op):
         h = self.pick(op["h"], lambda x: x.kind == "mv" and len(x.idx) > 0)
